@@ -1205,6 +1205,7 @@ peg::parser! {
         // A `]` that is quoted, escaped or closes a nested `[` does not end the key.
         rule literal_array_key_piece() -> () =
             "\\" [_] {} /
+            "$'" ("\\" [_] / !"'" [_])* "'" {} /
             "'" (!"'" [_])* "'" {} /
             "\"" ("\\" [_] / !"\"" [_])* "\"" {} /
             "[" literal_array_key_piece()* "]" {} /
